@@ -154,7 +154,7 @@ where
     P::Binary: Serialize,
 {
     // (1) single file lookups
-    let frac = if args.thorough { 1 } else { 40 };
+    let frac = if args.thorough { 1 } else { 12 };
     for (pi, p) in plans[0].iter().enumerate() {
         if rng.below(frac) != 0 {
             continue;
@@ -173,7 +173,7 @@ where
     }
     // (2) binary matrix: all substances in one pure file, binary file with the given stored orientations
     if let Some(bt) = t.binary {
-        let fracb = if args.thorough { 1 } else { 30 };
+        let fracb = if args.thorough { 1 } else { 10 };
         for (pi, p) in plans[1].iter().enumerate() {
             if rng.below(fracb) != 0 {
                 continue;
@@ -210,7 +210,7 @@ where
         }
     }
     // (3) two files
-    let fracm = if args.thorough { 3 } else { 60 };
+    let fracm = if args.thorough { 3 } else { 20 };
     for (pi, p) in plans[2].iter().enumerate() {
         if rng.below(fracm) != 0 {
             continue;
